@@ -46,10 +46,12 @@ def plan(tier):
     if q:
         # quick: key kind (+ sizes) and use/key_ops are varied separately; thorough: the full product per algorithm
         specs = [("jws_kind", [(a,) for a in range(14)]), ("jws_use_ops", [(a,) for a in range(14)]),
-                 ("jwe_kind", [(a,) for a in range(12)]), ("jwe_use_ops", [(a,) for a in range(12)])]
+                 ("jwe_kind", [(a,) for a in range(12)]), ("jwe_use_ops", [(a,) for a in range(12)]),
+                 ("jwe_use_ops_json", [(a,) for a in (0, 1, 4, 7, 10, 11)]), ("jwe_kind_json", [(a,) for a in (0, 1, 7, 10)])]
     else:
         specs = [("jws_key", [(a,) for a in range(14)]), ("jwe_key", [(a,) for a in range(12)]),
-                 ("jws_kind", [(a,) for a in range(14)]), ("jwe_kind", [(a,) for a in range(12)])]
+                 ("jws_kind", [(a,) for a in range(14)]), ("jwe_kind", [(a,) for a in range(12)]),
+                 ("jwe_use_ops_json", [(a,) for a in range(12)]), ("jwe_kind_json", [(a,) for a in range(12)])]
     path, names = gen.specialise(BASE, specs, "c06_gen.py")
     conds = [Cond(path, n, "main", T, n.replace("__", " for algorithm #")) for n in names]
     conds += [Cond(BASE, "jwe_ecdh_curves", "main", T, "ECDH-ES(+A128KW) decryption: recipient key curve x epk curve"),
@@ -62,7 +64,7 @@ def plan(tier):
                       "OKPKey.exchange_derive_key", "EdDSAAlgModel.sign/verify", "JWEKeyWrapping.check_op_key", "DirectAlgModel.compute_cek",
                       "RSAAlgModel.encrypt_cek/decrypt_cek", "AESAlgModel.*", "AESGCMAlgModel.*", "PBES2HSAlgModel.*", "ECDHESAlgModel.*",
                       "BaseKey.check_use", "check_key_op", "get_op_key", "jws.serialize_compact/deserialize_compact/serialize_json/deserialize_json",
-                      "rfc7797.serialize_compact/deserialize_compact", "jwe.encrypt_compact/decrypt_compact", "OctBinding.import_from_bytes"],
+                      "rfc7797.serialize_compact/deserialize_compact", "jwe.encrypt_compact/decrypt_compact", "jwe.encrypt_json/decrypt_json (key given, key attached with add_recipient, key from a callable)", "OctBinding.import_from_bytes"],
         "files": ["jws.py", "jwe.py", "rfc7515/model.py", "rfc7515/json.py", "rfc7516/models.py", "rfc7516/message.py", "rfc7517/models.py",
                   "rfc7518/jws_algs.py", "rfc7518/jwe_algs.py", "rfc7518/oct_key.py", "rfc7518/ec_key.py", "rfc8037/okp_key.py",
                   "rfc8037/jws_eddsa.py", "rfc7797/compact.py", "registry.py"],
@@ -70,7 +72,7 @@ def plan(tier):
                    "JWE": "12 algorithms x 10 key kinds x private/public x use x key_ops x oct length 0..64 (symbolic) x RSA size 512..8192 (symbolic) x 3 enc x encrypt/decrypt",
                    "unsafe secrets": "6 markers followed by up to 4 (thorough 64) arbitrary octets"},
         "outside": ["the key's declared alg member (not part of the statement)", "DER-encoded keys offered as secrets (no textual marker)",
-                    "JSON serializations for JWE", "ECDH-1PU"],
+                    "JWE JSON serializations are covered with the right key sizes only (jwe_*_json); sizes are varied over the compact form", "ECDH-1PU"],
         "stubs": ["fake native keys (arity/type behaviour of pyca reproduced), ice environment"],
         "assumptions": ["table `jws_row`/`jwe_row` is a faithful reading of the statement"],
     }
